@@ -84,6 +84,19 @@ def pattern_configs(tier):
     return out
 
 
+def election_configs(tier):
+    """A partition loses its leader between attempts and gets one back later (leader election)."""
+    out = []
+    evs = [["move", "t", 1, -1], ["move", "t", 1, 2], ["move", "t", 1, 1]]
+    for cl, batched, attempts in itertools.product([CLUSTER, CLUSTER_SAME], [False, True], [3, 4]):
+        prod = {"acks": 1, "max_req_attempts": attempts, "retry_interval": 0.25}
+        if batched:
+            prod.update(batch_send=True, batch_every_n=2, batch_every_b=0, batch_every_t=0)
+        out.append({"cluster": cl, "discovery": False, "producer": prod, "script": S_RR4,
+                    "menu": {"cluster_events": evs, "timer_early": True}, "timeout_ms": 2000})
+    return out
+
+
 RULE = ("real Producer+KafkaClient, 2 brokers, topic t with 2 partitions (on different leaders and on the same leader) "
         "and topic u; scripts of 3-4 sends (round-robin and keyed/hashed streams), batched (n=2) and unbatched, "
         "attempt limit {2,3}.  Alphabet: correct reply, error {6,7} for the whole request or one partition, silent "
@@ -100,10 +113,12 @@ ASSUME = ["SimCluster is Kafka (no replication)", "small scope: 2 brokers, 3 par
 def run(tier, seed, only=None):
     if tier == "quick":
         plans = [("sends-2dev", configs(tier), (1, 1, 2)),
-                 ("patterns-1dev", pattern_configs(tier), (0, 1, 1))]
+                 ("patterns-1dev", pattern_configs(tier), (0, 1, 1)),
+                 ("leader-election", election_configs(tier), (2, 1, 3))]
     else:
         plans = [("sends-3dev", configs(tier), (2, 2, 3)),
-                 ("patterns-2dev", pattern_configs(tier), (1, 1, 2))]
+                 ("patterns-2dev", pattern_configs(tier), (1, 1, 2)),
+                 ("leader-election", election_configs(tier), (3, 1, 4))]
     if only:
         plans = [p for p in plans if p[0] in only]
     return _dfs.run_plans(PROPERTY, SPEC, plans, seed, RULE, ASSUME)
